@@ -104,6 +104,16 @@ impl<M: AlignMarker> Drop for Node<M> {
         self.canary.store(CANARY_DEAD, Relaxed);
         crate::sched::inner_yield();
         let api = DTOR_API.load(Relaxed);
+        if api == 4 && crate::shadow::installed() && crate::sched::my_tid() != crate::sched::NONE {
+            // the destructor releases its plain-Rc link itself and then flushes: garbage made by
+            // garbage, handed over from inside the collection that runs this destructor
+            let e = std::mem::replace(unsafe { &mut *self.extra.get() }, Rc::null());
+            drop(e);
+            let g = circ::cs();
+            g.flush();
+            drop(g);
+            return;
+        }
         if api != 0 && crate::shadow::installed() && crate::sched::my_tid() != crate::sched::NONE {
             // legal re-entry from a destructor that runs inside collection
             let g = circ::cs();
